@@ -227,6 +227,50 @@ class Case:
         self.expect = expect  # oracle: expected output (str), or callable(out)->None|str, or None
         self.meta = meta
 
+SIB_SKIP = ("rng.stat", "thr", "pk.sweep", "pin.sweep", "w.sweep", "hdr.steps", "mc.sweep", "ns.sweep",
+            "mc.flow")   # mc.flow types what the PRINTED card shows: only defined for cards whose bytes are digits
+
+def sibling_history_cases(cases, rng, n):
+    """History layer, generic over all properties: a sample of the generated calls is repeated as  call ; the same call with ONE
+    argument changed in one bit ; the first call again  — back to back on one thread.  The library's functions are pure functions of
+    (arguments, drawn bytes), so each answer must be the one the independent reference computes for THAT line alone; anything
+    remembered from the previous call (a cache keyed by too little, a lazily initialised global) shows up here.  Expected answers
+    come from tools/pydriver.py (independent of the model); where it has none the line is still compared with the Lean model."""
+    import pydriver
+    pool = [c for c in cases if len(c.line) < 6000 and not c.line.startswith(SIB_SKIP)
+            and not (isinstance(c.meta, dict) and (c.meta.get("impl_only") or "group" in c.meta or "tgroup" in c.meta))]
+    if not pool:
+        return []
+    out = []
+    for c in rng.sample(pool, min(n, len(pool))):
+        cmd, sep, draws = c.line.partition(" | ")
+        toks = cmd.split(" ")
+        if toks[0] == "hdr":
+            idx = [3]
+        else:
+            # byte-string arguments only (a decimal argument never has 32+ digits and never contains a-f)
+            idx = [i for i, t in enumerate(toks) if i > 0 and len(t) >= 8 and len(t) % 2 == 0 and re.fullmatch(r"[0-9a-f]+", t)
+                   and (len(t) >= 32 or re.search(r"[a-f]", t))]
+        if not idx:
+            continue
+        i = rng.choice(idx)
+        b = bytearray(bytes.fromhex(toks[i]))
+        # late bytes are the likelier blind spot of a key that covers "the first few bytes"
+        pos = rng.randrange(len(b)) if rng.random() < 0.5 else len(b) - 1 - rng.randrange(min(8, len(b)))
+        b[pos] ^= 1 << rng.randrange(8)
+        t2 = list(toks); t2[i] = b.hex()
+        sib = " ".join(t2) + sep + draws
+        for line, kind in ((c.line, "history:call"), (sib, "history:sibling-call-one-bit-of-one-argument-changed"), (c.line, "history:call-again")):
+            try:
+                e = pydriver.expected(line)
+            except Exception:
+                e = None
+            exp = e
+            if e is not None and toks[0] == "srv.server" and e.startswith("err"):
+                exp = None      # (the reference prints the two proofs of a refusal in the other order for this op; the model comparison covers it)
+            out.append(Case(line, kind, exp, dict(sib=True)))
+    return out
+
 def load_known():
     p = os.path.join(VERIF, "known_findings.json")
     if not os.path.exists(p):
@@ -288,6 +332,7 @@ def main():
                             ln, exp = ln.split("\t=> ", 1)
                         cases.append(Case(ln, "corpus:" + f, exp))
     cases.extend(mod.generate(rng, tier))
+    cases.extend(sibling_history_cases(cases, rng, 120 if tier == "quick" else 3000))
     lines = [c.line for c in cases]
     log("[%s] %d cases (%s tier, seed %d)" % (pid, len(lines), tier, seed))
 
@@ -472,9 +517,11 @@ def replay(pid, mod, path):
         f = mod.replay_oracle(r["line"], o)
     elif exp is not None:
         # the independent Python reference recomputes what the property definitions require for this line
-        log("expect: " + exp[:400])
+        log("expect: " + (exp[:400] if isinstance(exp, str) else "(predicate from the reference)"))
         if pid == "C14":
             f = None if not (o.startswith("panic") or o.startswith("<no-output")) else r["why"]
+        elif callable(exp):
+            f = exp(o)
         elif o != exp:
             f = "implementation output differs from the independent reference"
     elif o == r["impl_out"]:
